@@ -174,6 +174,9 @@ def run(repo, rep, tier):
         "float32 scalars): it passes through float()/int(). Decides the agreement "
         "of the two code paths, not the bit-exact float text."
     )
+    rep.extra["explanation"] += " " + (
+        "Later additions: (R4.7) numbers stored into serialised fields by _numpy pass through float()/int(); (R4.8) Bag's reader normalises numeric keys like the filling path; (R4.9) shared rule of C06: names read from JSON are written onto a function object of the container's own."
+    )
     rep.not_decided += [
         "bit-exact float text round trip (Python's json)", "equality of reloaded content for arbitrary states",
         "names of children of empty reloaded sparse containers (no object carries them)",
